@@ -417,13 +417,25 @@ def judge(chk, c, evs):
         nseg = len(cl) - 1
         clear = 2.5 * (max(hw) + 0.0) + 4 * tol
         approach = False
+        # (the centre line extended by the end caps: the cap of one end reaching the other end, or another stretch, is self-overlap as well)
+        capa = {0: 0.0, 1: hw[0], 2: hw[0], 3: max(0.0, e['ext'][0])}.get(spec['end'], hw[0])
+        capb = {0: 0.0, 1: hw[-1], 2: hw[-1], 3: max(0.0, e['ext'][1])}.get(spec['end'], hw[-1])
+        cle = list(cl)
+        for which, capx in ((0, capa), (-1, capb)):
+            a_, b_ = (cl[1], cl[0]) if which == 0 else (cl[-2], cl[-1])
+            ln_ = math.hypot(b_[0] - a_[0], b_[1] - a_[1])
+            if ln_ > 0 and capx > 0:
+                cle[which] = (b_[0] + (b_[0] - a_[0]) / ln_ * capx, b_[1] + (b_[1] - a_[1]) / ln_ * capx)
         for k1 in range(nseg):
             for k2 in range(k1 + 2, nseg):
                 # skip neighbours that are short samples of one curved section
                 gap = sum(math.hypot(cl[q + 1][0] - cl[q][0], cl[q + 1][1] - cl[q][1]) for q in range(k1 + 1, k2))
-                if gap < 2 * clear:
+                d1 = (cl[k1 + 1][0] - cl[k1][0], cl[k1 + 1][1] - cl[k1][1])
+                d2 = (cl[k2 + 1][0] - cl[k2][0], cl[k2 + 1][1] - cl[k2][1])
+                back = d1[0] * d2[0] + d1[1] * d2[1] < -0.5 * math.hypot(*d1) * math.hypot(*d2)      # the path has turned by more than 120 degrees
+                if gap < 2 * clear and not back:
                     continue
-                if genlib._seg_dist(cl[k1], cl[k1 + 1], cl[k2], cl[k2 + 1]) < clear:
+                if genlib._seg_dist(cle[k1], cle[k1 + 1], cle[k2], cle[k2 + 1]) < clear:
                     approach = True
                     break
             if approach:
@@ -525,7 +537,8 @@ def judge(chk, c, evs):
         # slightly more or less than the centre line - the sampled test above leaves the tip alone, a vertex test would sit right on it)
         for (vx, vy) in (poly if join != 1 else []):
             dext, _kv, _sv = dist_centre(vx, vy, True)
-            if dext > reach * 1.02 + 3 * tol + 1e-9:
+            # (a natural join is a miter up to a quarter turn: with tapering widths its tip is up to a few per cent farther out, see above)
+            if dext > reach * (1.12 if join == 0 and len(set(hw)) > 1 else 1.02) + 3 * tol + 1e-9:
                 chk.violation('C07/outline/excess', 'element %d (half width %g, join %d, end %d): outline vertex (%.6g,%.6g) is %.4g from the (cap-extended) centre line, '
                               'beyond the reach %.4g of the join/end style' % (ei, max(hw), join, end_t, vx, vy, dext, reach), rp)
                 return
